@@ -31,6 +31,7 @@ func init() {
 
 func runC01(r *Run) {
 	contextProvenanceRules(r) // balances are checked against the block's previous, not the frontier
+	acceptancePathRules(r)
 	const impl = "vm/embedded/implementation."
 	r.Alias("$from", "recv.context.MomentumStore().GetAccountBlockByHash(a0.FromBlockHash)#0")
 	r.Alias("$send", "recv.context.MomentumStore().GetAccountBlockByHash(a0)#0")
